@@ -127,6 +127,13 @@ def synthetic_zones():
     out.append(Zone('syn/type0-std-referenced', T.write(z), 'synthetic'))
     z = T.TZif(2, base_t, [1, 2, 1, 2], [(-14400, True, 0), (-14400, True, 4), (-14400, True, 12)], ab, b'')
     out.append(Zone('syn/all-types-dst', T.write(z), 'synthetic'))
+    # two types with different indexes and identical attributes: a change between them alters nothing
+    z = T.TZif(2, [-2000000000, 1000000, 2000000, 3000000, 4000000, 5000000, 6000000, 7000000], [1, 2, 3, 1, 1, 2, 1, 3],
+               [(0, False, 0), (3600, False, 4), (7200, True, 8), (3600, False, 4)], b'LMT\0XST\0XDT\0', b'')
+    out.append(Zone('syn/duplicate-types', T.write(z), 'synthetic'))
+    z = T.TZif(2, [-2000000000, 1000000, 2000000, 3000000], [1, 2, 3, 2],
+               [(0, False, 0), (3600, False, 4), (7200, True, 8), (3600, False, 4)], b'LMT\0XST\0XDT\0', b'XST-1XDT,M3.5.0,M10.5.0')
+    out.append(Zone('syn/duplicate-types-rule', T.write(z), 'synthetic'))
     # only type, no transitions
     z = T.TZif(2, [], [], [(3600, False, 0)], b'CET\0', b'CET-1')
     out.append(Zone('syn/notrans', T.write(z), 'synthetic'))
@@ -170,6 +177,60 @@ def untame_zones():
     return out
 
 
+LAST_YEAR = 292277026596      # the civil year of time_point<seconds>::max()
+
+
+def edge_rule_zones():
+    """zones whose footer rule puts an offset change of the last representable year within hours of
+    time_point<seconds>::max() (292277026596-12-04 15:30:07 UTC = J338): the gap / overlap there is where pre, trans and
+    post are clamped one by one"""
+    out = []
+    for std in (b'0', b'-5', b'3'):
+        for h in (13, 15, 16, 18):
+            f1 = b'XST%sXDT,J100/0,J338/%d' % (std, h)       # overlap near max()
+            f2 = b'XST%sXDT,J338/%d,J60/0' % (std, h)        # gap near max()
+            for f in (f1, f2):
+                out.append(Zone('edge/' + f.decode(), T.write(T.make_rule_zone(f, version=2)), 'synthetic'))
+    return out
+
+
+def last_year_civils(zone):
+    """civil seconds around the rule-generated changes of the last representable year"""
+    res = set()
+    if not zone.has_rule: return []
+    for y in (LAST_YEAR, LAST_YEAR - 400):
+        for t in zone.rule_instants(y):
+            if abs(I64MAX - t) > 3 * 86400 and y == LAST_YEAR: continue
+            for o in (zone.rule['std_offset'], zone.rule['dst_offset']):
+                for d in (-2, -1, 0, 1, 2, 600, 900, 1799, 1800, 1801, 2700, 3598, 3599, 3600, 3601, 5400, 7200, -1800, -3600, -3601):
+                    cs = C.civil_of_sec(t + o + d)
+                    if C.in64(cs[0]): res.add(cs)
+    return sorted(res)
+
+
+def rejected_zones():
+    """well-formed TZif files that Load() must reject: two offset changes that cross in civil time
+    (the civil second shown at the second change is not later than the one shown at the first), so that the
+    civil-time index of the table would not be ordered.  On a tree that accepts them, MakeTime's
+    answers depend on the hint (C14) and on nothing the documentation describes (C02/C03)."""
+    out = []
+    for k, (t0, gap, up) in enumerate([(1000000000, 1800, 3600), (1000000000, 3600, 7200), (86400 * 7000, 600, 1800), (-5000000, 3599, 3600)]):
+        for footer in (b'', b'XST0'):
+            z = T.TZif(2, [t0, t0 + gap, t0 + 40 * 86400], [1, 0, 1], [(0, False, 0), (up, True, 4)], b'XST\0XDT\0', footer)
+            out.append(Zone('rejected/crossed-%d%s' % (k, '-footer' if footer else ''), T.write(z), 'rejected'))
+    return out
+
+
+def irregular_zones():
+    """well-formed files outside the `Regular` hypothesis of theorem C01Glue.lookup_follows_rule (finding F14): by
+    negative rule times both rule instants "of" the year after the last recorded transition fall before that
+    transition, so the 400-year window BreakTime shifts into starts inside the recorded part"""
+    w = bytes.fromhex('545a69663200000000000000000000000000000000000000000000000000000000000002000000030000000c0000000047794a40000100001c20000000000000000400000e100108414141005853540058445400'
+                      '545a69663200000000000000000000000000000000000000000000000000000000000002000000030000000c00000000000000000000000047794a40000100001c20000000000000000400000e100108414141005853540058445400'
+                      '0a585354305844542c4a312f2d34382c4a322f2d33300a')
+    return [Zone('irregular/rule-instants-before-last-record', w, 'irregular')]
+
+
 def corpus(rng, n_real=None):
     real = [Zone(n, b, 'shipped') for n, b in T.shipped_zones()]
     real = [z for z in real if z.z is not None]
@@ -179,7 +240,7 @@ def corpus(rng, n_real=None):
                                               'America/Nuuk', 'Asia/Gaza', 'Pacific/Chatham', 'Antarctica/Troll')]
         rest = [z for z in real if z not in must]
         real = must + rng.sample(rest, max(0, n_real - len(must)))
-    return real + synthetic_zones() + rule_family(rng, 30 if n_real is not None else 120)
+    return real + synthetic_zones() + rule_family(rng, 30 if n_real is not None else 120) + edge_rule_zones()
 
 
 def probe_instants(zone, rng, per_transition=3, n_random=60, shifts=True):
@@ -246,4 +307,5 @@ def civil_probes(zone, rng, n_random=40):
             (292277026596, 12, 4, 15, 30, 7), (292277026596, 12, 4, 15, 30, 8), (292277026596, 12, 5, 15, 30, 7), (292277026596, 12, 3, 15, 30, 7),
             (-292277022657, 1, 27, 8, 29, 52), (-292277022657, 1, 27, 8, 29, 51), (-292277022657, 1, 26, 8, 29, 52), (-292277022657, 1, 28, 8, 29, 52),
             (292277026597, 1, 1, 0, 0, 0), (-292277022658, 1, 1, 0, 0, 0)]
+    res += last_year_civils(zone)
     return sorted(set(res))
